@@ -3,23 +3,28 @@ Model of the BINARY OPERATORS BETWEEN TWO RESULT VECTORS of metric queries (C09,
 label sets"), mirroring
 
   pkg/segment/segexecution.go            : HelperQueryArithmeticAndLogical, the vector–vector branch WITHOUT
-        on()/ignoring() (`hasVectorMatchingOp = false`) and with `opLabelsDoNotNeedToMatch = false`, WITH the pending
-        repair c09-15: the label part of a group id is cut out by SLICING the id at len(MetricName)
-        (`lGroupID[len(resultLHS.MetricName):]`) and brought into a canonical form (canonicalLabelSet: leading "{"
+        on()/ignoring() (`hasVectorMatchingOp = false`) and with `opLabelsDoNotNeedToMatch = false`, WITH the
+        repair c09-15 and the pending repairs c09-19 (operators evaluated per timestamp), c09-20 (x / 0) and c09-25
+        (labelPartOfGroupID): the label part of a group id is what follows the metric name of the vector when the id
+        starts with that name and goes on with "{" (or ends there); any other id — the ids of a vector that comes from
+        an `or` can start with different metric names — is cut at its first "{" (`cutLabel?`; before c09-25 every id was
+        SLICED at len(MetricName): `cutLabel`); the label part is brought into a canonical form (canonicalLabelSet: leading "{"
         dropped, split on ",", items sorted, empty items dropped, joined with ","); the partner is the right id whose
-        label part has the same canonical form (the smallest such id), `unless` deletes the left ids of a canonical
-        label set, `or` copies the right ids whose canonical label set no left id has.  Before the repair the id STRINGS
-        were compared (`resultRHS.MetricName + labelStr`): `partnerIdOld`, counterexamples in Props/C09.lean;
+        label part has the same canonical form (the smallest such id).  PER TIMESTAMP (c09-19): arithmetic, comparison
+        and `and` write a sample only where the partner series has one too (`valueRHS, ok := tsRHS[timestamp]`; before
+        the repair a missing right sample was read as 0: `leftPtsOld`), `unless` keeps the left samples where the partner
+        has none (and drops a left id that keeps no sample; before: the whole left id was deleted as soon as some right id
+        had its label set), `or` keeps all left samples and takes a right sample where no left id of the same canonical
+        label set has one (before: a right id was copied whole iff no left id had its label set).  Before c09-15 the id
+        STRINGS were compared (`resultRHS.MetricName + labelStr`): `partnerIdOld`, counterexamples in Props/C09.lean;
   pkg/integrations/prometheus/utils/…    : SetFinalResult (83-200) with swapped = false, ConstantOp = false.
 
 A group id is  <metric> "{" k1 ":" v1 "," … (Model/Promql.lean `seriesIdOf`); here it is just a byte string, and a
 result vector is a metric name plus a map id → (timestamp → value) — the model does what the code does for ANY ids,
 also ids that do not start with the metric name or are shorter than it.  Values are integers (the correspondence
 run uses integer-valued float64, |v| < 2^20): + - * are exact, / is the correctly rounded float64 quotient
-(`Promql.f64div`), % is math.Mod (sign of the dividend), ^ is exact for exponents 0..4 and |base| ≤ 8192; the Oracle
-rejects the remaining pow inputs and so does the harness.
-A timestamp of the left series that the partner series does not have reads the partner as 0 (Go map zero value):
-mirrored as it is (what PromQL says there is a question for the end-to-end specification, not for this kernel).
+(`Promql.f64div`; x / 0 is ±Inf, 0 / 0 is NaN — c09-20; before it the sample was dropped), % is math.Mod (sign of the
+dividend), ^ is exact for exponents 0..4 and |base| ≤ 8192; the Oracle rejects the remaining pow inputs and so does the harness.
 
 NOT modelled: on()/ignoring()/group_left/group_right (ExtractMatchingLabelSet), scalar and constant operands,
 nested expressions (processQueryArithmeticNodeOp), MQueryAggsChain.
@@ -40,7 +45,8 @@ def Op.isSet : Op → Bool
 /-- a value as the Oracle prints it -/
 inductive Val where
   | num (q : Rat)
-  | nan                -- x % 0
+  | nan                -- x % 0, 0 / 0
+  | inf (neg : Bool)   -- x / 0, x ≠ 0
   | unmodelled         -- x ^ y with y outside 0..4
 deriving DecidableEq, Repr
 
@@ -52,10 +58,22 @@ structure Res where
   series : Vec
 
 def lookupPts (v : Vec) (id : Str) : Option Pts := (v.find? (·.1 == id)).map (·.2)
-def ptAt (p : Pts) (t : Nat) : Int := ((p.find? (·.1 == t)).map (·.2)).getD 0
+def ptAt? (p : Pts) (t : Nat) : Option Int := (p.find? (·.1 == t)).map (·.2)
+/-- the Go map read `m[t]` of a missing key (what the code did before the repair c09-19) -/
+def ptAt (p : Pts) (t : Nat) : Int := (ptAt? p t).getD 0
 
-/-- `id[len(MetricName):]` when the id is long enough -/
+/-- `id[len(MetricName):]` when the id is long enough (before the repair c09-25) -/
 def cutLabel (name id : Str) : Str := if id.length ≥ name.length then id.drop name.length else []
+
+/-- the suffix of a string from its first '{' on -/
+def fromFirstBrace : Str → Option Str
+  | [] => none
+  | c :: r => if c = cBrace then some (c :: r) else fromFirstBrace r
+
+/-- labelPartOfGroupID (repair c09-25) -/
+def cutLabel? (name id : Str) : Option Str :=
+  if name.isPrefixOf id && (id.length == name.length || (id.drop name.length).head? == some cBrace) then some (id.drop name.length)
+  else fromFirstBrace id
 
 /-- the partner id BEFORE the repair c09-15: the right metric name followed by the very same label string -/
 def partnerIdOld (lname rname lid : Str) : Str := if lid.length ≥ lname.length then rname ++ cutLabel lname lid else []
@@ -81,18 +99,20 @@ def canonLabel (s : Str) : Str :=
   joinWith cComma ((sortStrs (splitOn cComma body)).dropWhile (· == []))
 
 /-- the canonical label set under which an id of a vector is filed ("" for an id shorter than the metric name) -/
-def labelSetOf (name id : Str) : Str := if id.length ≥ name.length then canonLabel (cutLabel name id) else []
+def labelSetOf (name id : Str) : Str := ((cutLabel? name id).map canonLabel).getD []
 
 /-- `rGroupIDOfLabelSet`: the smallest right id (long enough) with this canonical label set -/
 def partnerOf (r : Str × List Str) (c : Str) : Option Str :=
-  ((r.2.filter (fun rid => rid.length ≥ r.1.length && canonLabel (cutLabel r.1 rid) == c)).foldl
+  ((r.2.filter (fun rid => (cutLabel? r.1 rid).map canonLabel == some c)).foldl
     (fun (acc : Option Str) rid => match acc with
       | none => some rid
       | some p => if strLe p rid then some p else some rid) none)
 
 /-- `rGroupID` of the left loop: the partner id, "" when there is none or the left id is shorter than its metric name -/
 def partnerId (lname : Str) (r : Str × List Str) (lid : Str) : Str :=
-  if lid.length ≥ lname.length then (partnerOf r (canonLabel (cutLabel lname lid))).getD [] else []
+  match cutLabel? lname lid with
+  | some p => (partnerOf r (canonLabel p)).getD []
+  | none => []
 
 /-- SetFinalResult for one (timestamp, left value, right value): `none` = the map entry is not written -/
 def setFinal (op : Op) (retBool : Bool) (x y : Int) : Option Val :=
@@ -102,7 +122,7 @@ def setFinal (op : Op) (retBool : Bool) (x y : Int) : Option Val :=
   | .add => some (.num ((x + y : Int) : Rat))
   | .sub => some (.num ((x - y : Int) : Rat))
   | .mul => some (.num ((x * y : Int) : Rat))
-  | .div => if y = 0 then (if retBool then some (.num 0) else none) else some (.num (f64div x y.natAbs * (if y < 0 then -1 else 1)))
+  | .div => if y = 0 then some (if x = 0 then .nan else .inf (x < 0)) else some (.num (f64div x y.natAbs * (if y < 0 then -1 else 1)))
   | .mod => if y = 0 then some .nan else some (.num ((Int.tmod x y : Int) : Rat))
   | .pow => if 0 ≤ y ∧ y ≤ 4 ∧ x.natAbs ≤ 8192 then some (.num ((x ^ y.toNat : Int) : Rat)) else some .unmodelled
   | .eq => cmp (x == y)
@@ -122,34 +142,55 @@ def hasId (v : Vec) (id : Str) : Bool := (lookupPts v id).isSome
 
 def rKey (r : Res) : Str × List Str := (r.name, r.series.map (·.1))
 
+/-- the samples written for ONE left series (points `pl`) whose partner series has the points `rp` (`none`: no partner,
+    or an id that the right vector does not have): arithmetic / comparison / `and` need a right sample at the
+    timestamp, `unless` keeps the left sample where there is none, `or` keeps every left sample (SetFinalResult then
+    writes the left value; the right value it is handed is the zero value of the missing map entry) -/
+def leftPts (op : Op) (retBool : Bool) (pl : Pts) (rp : Option Pts) : List (Nat × Val) :=
+  pl.filterMap (fun (t, x) =>
+    match rp.bind (ptAt? · t) with
+    | some y => if op == .unless then none else (setFinal op retBool x y).map (fun v => (t, v))
+    | none => if op == .or || op == .unless then (setFinal op retBool x 0).map (fun v => (t, v)) else none)
+
+/-- … before the repair c09-19: every left timestamp, a missing right sample read as 0 -/
+def leftPtsOld (op : Op) (retBool : Bool) (pl : Pts) (rp : Option Pts) : List (Nat × Val) :=
+  pl.filterMap (fun (t, x) => (setFinal op retBool x (ptAt (rp.getD []) t)).map (fun v => (t, v)))
+
 /-- the loop over the left vector: the ids of a Go map are distinct, so every kept id gets its own
     entry; an id without partner is skipped unless the operator is or / unless -/
 def leftPass (op : Op) (retBool : Bool) (l r : Res) : Out :=
-  l.series.filterMap (fun (lid, pl) =>
-    let rid := partnerId l.name (rKey r) lid
-    if hasId r.series rid || op == .or || op == .unless then
-      let rp := (lookupPts r.series rid).getD []
-      some (lid, pl.filterMap (fun (t, x) => (setFinal op retBool x (ptAt rp t)).map (fun v => (t, v))))
+  l.series.filterMap (fun e =>
+    if hasId r.series (partnerId l.name (rKey r) e.1) || op == .or || op == .unless then
+      some (e.1, leftPts op retBool e.2 (lookupPts r.series (partnerId l.name (rKey r) e.1)))
     else none)
 
-/-- the canonical label sets of the left ids (`lGroupIDsOfLabelSet`, only filled for or / unless) -/
+/-- the canonical label sets of the left ids (`lGroupIDsOfLabelSet`, only filled for or) -/
 def leftLabelSets (l : Res) : List Str := l.series.map (fun e => labelSetOf l.name e.1)
 
 /-- the canonical label sets of the right ids -/
 def rightLabelSets (r : Res) : List Str := r.series.map (fun e => labelSetOf r.name e.1)
 
-/-- `or`, loop over the right vector: a right series whose canonical label set no left id has is copied under its own
-    id (`finalResult[rGroupID] = …`, replacing an entry of that very id if there is one) -/
-def orPass (l r : Res) (o : Out) : Out :=
-  (r.series.filter (fun e => !(leftLabelSets l).contains (labelSetOf r.name e.1))).foldl
-    (fun o e => outInsert o e.1 (e.2.map (fun (t, y) => (t, Val.num (y : Rat))))) o
+/-- some left id of the canonical label set `c` has a sample at `t` -/
+def leftHasAt (l : Res) (c : Str) (t : Nat) : Bool :=
+  l.series.any (fun e => labelSetOf l.name e.1 == c && (ptAt? e.2 t).isSome)
 
-/-- HelperQueryArithmeticAndLogical, vector–vector, no vector matching clause; `unless`: every left id whose canonical
-    label set some right id has is deleted -/
+/-- `finalResult[id][t] = v` -/
+def outSetPt (o : Out) (id : Str) (t : Nat) (v : Val) : Out :=
+  if o.any (·.1 == id) then o.map (fun e => if e.1 == id then (id, e.2.filter (·.1 != t) ++ [(t, v)]) else e)
+  else o ++ [(id, [(t, v)])]
+
+/-- `or`, loop over the right vector: a right sample is written (under the right id) where no left id of the same
+    canonical label set has a sample -/
+def orPass (l r : Res) (o : Out) : Out :=
+  r.series.foldl (fun o e =>
+    (e.2.filter (fun p => !leftHasAt l (labelSetOf r.name e.1) p.1)).foldl (fun o p => outSetPt o e.1 p.1 (Val.num (p.2 : Rat))) o) o
+
+/-- HelperQueryArithmeticAndLogical, vector–vector, no vector matching clause; `unless`: a left id that keeps no
+    sample is deleted -/
 def binop (op : Op) (retBool : Bool) (l r : Res) : Out :=
   let o := leftPass op retBool l r
   match op with
-  | .unless => o.filter (fun e => !(rightLabelSets r).contains (labelSetOf l.name e.1))
+  | .unless => o.filter (fun e => !e.2.isEmpty)
   | .or => orPass l r o
   | _ => o
 
@@ -158,7 +199,10 @@ def vecIds (res : Res) : List Str := res.series.map (·.1)
 
 /-! ### what the property says (for the theorems): vectors given by label parts -/
 
-/-- every id of a vector is its metric name followed by a label part (any bytes) -/
-def wellFormed (res : Res) : Prop := ∀ id ∈ vecIds res, ∃ p, id = res.name ++ p
+/-- a label part: empty, or beginning with '{' (any bytes behind it) -/
+def partOK (p : Str) : Prop := p = [] ∨ p.head? = some cBrace
+
+/-- every id of a vector is its metric name followed by a label part -/
+def wellFormed (res : Res) : Prop := ∀ id ∈ vecIds res, ∃ p, id = res.name ++ p ∧ partOK p
 
 end SigModel.PromqlBin
